@@ -229,6 +229,24 @@ def judge_wsgi_sse(o, n_items, raise_at, consume, empty_at=None, cleanup_raises=
     return p
 
 
+def writers_event(k, i):
+    return {"id": f"{k}{i}", "event": "ab"[k], "data": f"{k}.{i}\n{'xy'[k]}"}
+
+
+def judge_writers(o, n):
+    p = []
+    if o["watchdog"] or o["deadlock"] or o["livelock"]:
+        p.append("DEADLOCK/LIVELOCK: " + str(o["blocked"]))
+    for k, oo in enumerate([o] + list(o["others"])):
+        want = [b"id: %d%d\nevent: %s\ndata: %d.%d\ndata: %s\n\n" % (k, i, b"ab"[k:k + 1], k, i, b"xy"[k:k + 1]) for i in range(n)]
+        got = [g for g in oo["got"] if g != b": ping\n\n"]
+        if got != want:
+            p.append(f"garbled: stream {k} delivered {got!r}, its producer yielded {want!r}")
+        if oo["server_exc"]:
+            p.append(f"raised: stream {k} raised {oo['server_exc']}")
+    return p
+
+
 # ====================================================================================== WSGI plain stream (sequential)
 def wsgi_stream_cases(r, nmax):
     from baize.wsgi import StreamResponse
@@ -887,6 +905,7 @@ def shards(tier, seed):
     out = [("wsgi_sse", i) for i in range(len(wsgi_configs(tier)))]
     out.append(("wsgi_stream",))
     out += [("wsgi_sse_charset", n) for n in (1, 2, 3)]
+    out += [("wsgi_sse_writers", 1, k) for k in range(6)]
     out += [("asgi", i) for i in range(len(asgi_configs(tier)))]
     out += [("asgi_x", i) for i in range(len(asgi_extra_configs(tier)))]
     out += [("asgi_shared", kind) for kind in ("stream", "sse")]
@@ -945,6 +964,24 @@ def run_shard(desc, tier):
                     r.violation(f"wsgi_sse_charset:{kind}", {"driver": "wsgi_sse_charset", "n": n, "line_points": line_points, "schedule": list(x.choices)},
                                 f"WSGI SendEventResponse(charset='utf-9') over a producer of {n} items, the server iterates (outcome {x.obs['server_exc']!r:.60}) and calls close(); schedule {x.obs['trace'][-14:]}: {probs[0]}")
             dfs(lambda prefix: run_wsgi_sse(prefix, n, None, None, line_points, 1, charset="utf-9"), on_exec, bound=bound)
+        r.count("states", len(outcomes))
+        r.count("distinct_nontrivial")
+    elif desc[0] == "wsgi_sse_writers":
+        # two event streams written out by two server threads at once, with switches inside the rendering of one event:
+        # each client gets its own events, whole and in order, whatever the other stream is writing at that moment
+        n = desc[1]
+        outcomes = set()
+
+        def on_exec(x):
+            r.count("evaluations")
+            r.count("traces")
+            r.count("transitions", len(x.choices))
+            probs = judge_writers(x.obs, n)
+            outcomes.add(tuple(tuple(o["got"]) for o in [x.obs] + list(x.obs["others"])))
+            if probs:
+                r.violation("wsgi_sse_writers:" + probs[0].split(" ")[0], {"driver": "wsgi_sse_writers", "n": n, "schedule": list(x.choices)},
+                            f"two WSGI SendEventResponse streams of {n} event(s) each, written out by two server threads, switches inside the rendering of an event; schedule {x.obs['trace'][-14:]}: {probs[0]}")
+        dfs(lambda prefix: run_wsgi_sse(prefix, n, None, None, False, 0, streams=2, event_of=writers_event, trace_builder=True), on_exec, bound=1 if tier == "quick" else 2, part=(desc[2], 6))
         r.count("states", len(outcomes))
         r.count("distinct_nontrivial")
     elif desc[0] == "denial_stream":
@@ -1027,6 +1064,10 @@ def replay(w):
     if w["driver"] == "wsgi_sse":
         x = run_wsgi_sse(list(w["schedule"]), w["n"], w["raise_at"], w["consume"], w["line_points"], w["timeouts"], w.get("empty_at"), w.get("cleanup_raises", False), w.get("streams", 1), w.get("shared", False), w.get("saturated", False), w.get("hold", 0.0))
         probs = judge_wsgi_sse(x.obs, w["n"], w["raise_at"], w["consume"], w.get("empty_at"), w.get("cleanup_raises", False), w.get("shared", False))
+        return bool(probs), {"problems": probs, "trace": x.obs["trace"][-30:]}
+    if w["driver"] == "wsgi_sse_writers":
+        x = run_wsgi_sse(list(w["schedule"]), w["n"], None, None, False, 0, streams=2, event_of=writers_event, trace_builder=True)
+        probs = judge_writers(x.obs, w["n"])
         return bool(probs), {"problems": probs, "trace": x.obs["trace"][-30:]}
     if w["driver"] == "wsgi_sse_charset":
         x = run_wsgi_sse(list(w["schedule"]), w["n"], None, None, w["line_points"], 1, charset="utf-9")
